@@ -219,22 +219,41 @@ inline Q qpfun(Q z) {
   for (int k = 1; k < 200; ++k) { Q t = 6 * zp / (Q(2 * k + 1) * Q(2 * k + 3)); s += (k & 1) ? t : -t; zp *= z2; if (t < Q(1e-45) * qabs(s)) break; }
   return s;
 }
-// Level ellipsoid (a, GM, omega, f >= 0); H+M = Heiskanen & Moritz, Physical Geodesy (1967)
+// The same functions of the signed square z2 = z^2 (analytic continuation to z2 < 0, the prolate ellipsoid, where
+// atan(z)/z becomes atanh(w)/w, w^2 = -z2):  A = atan(z)/z,  q(z)/z = ((1 + 3/z2) A - 3/z2)/2,  q'(z) = 3 (1 + 1/z2)(1 - A) - 1
+inline Q Afun2(Q z2) { if (z2 == 0) return 1; Q w = sqrtq(qabs(z2)); return z2 > 0 ? atanq(w) / w : atanhq(w) / w; }
+inline Q qz2(Q z2) {
+  if (qabs(z2) > Q(0.04)) return ((1 + 3 / z2) * Afun2(z2) - 3 / z2) / 2;
+  Q s = 0, zp = z2;                                          // sum_{k>=1} (-1)^(k+1) 2k z2^k / ((2k+1)(2k+3))
+  for (int k = 1; k < 200; ++k) { Q t = Q(2 * k) * zp / (Q(2 * k + 1) * Q(2 * k + 3)); s += (k & 1) ? t : -t; zp *= z2; if (qabs(t) < Q(1e-45) * qabs(s)) break; }
+  return s;
+}
+inline Q qp2(Q z2) {
+  if (qabs(z2) > Q(0.04)) return 3 * (1 + 1 / z2) * (1 - Afun2(z2)) - 1;
+  Q s = 0, zp = z2;                                          // sum_{k>=1} (-1)^(k+1) 6 z2^k / ((2k+1)(2k+3))
+  for (int k = 1; k < 200; ++k) { Q t = 6 * zp / (Q(2 * k + 1) * Q(2 * k + 3)); s += (k & 1) ? t : -t; zp *= z2; if (qabs(t) < Q(1e-45) * qabs(s)) break; }
+  return s;
+}
+// Level ellipsoid (a, GM, omega, f); H+M = Heiskanen & Moritz, Physical Geodesy (1967).  The constants (U0, gamma_e, gamma_p,
+// J2, J_n, Somigliana) are available for every f < 1 (prolate by the continuation above); the field V0(X,Y,Z) for f >= 0 only.
 struct Ell {
   Q a, GM, omega, f, b, E, e2, ep, m, q0, q0p, U0, gammae, gammap, J2;
-  bool sphere;
+  bool sphere, prolate;
   Ell(Q a_, Q GM_, Q omega_, Q f_) : a(a_), GM(GM_), omega(omega_), f(f_) {
-    b = a * (1 - f); e2 = f * (2 - f); E = a * sqrtq(e2); sphere = (f == 0);
+    b = a * (1 - f); e2 = f * (2 - f); sphere = (f == 0); prolate = (f < 0);
+    E = prolate ? Q(0) / Q(0) : a * sqrtq(e2);                            // linear eccentricity (imaginary, unused, when prolate)
     m = omega * omega * a * a * b / GM;                                  // H+M 2-70
     if (!sphere) {
-      ep = E / b;
-      q0 = qfun(E / b);                                                   // H+M 2-58
-      q0p = qpfun(E / b);                                                 // H+M 2-67 at u = b
-      U0 = GM / E * atanq(E / b) + omega * omega * a * a / 3;            // H+M 2-61
-      Q w = m * ep * q0p / q0;
+      Q z2 = (a * a - b * b) / (b * b);                                   // e'^2, signed
+      ep = sqrtq(qabs(z2));
+      Q qz = qz2(z2);                                                     // q0 / e'        (H+M 2-58)
+      q0p = qp2(z2);                                                      // q0'            (H+M 2-67 at u = b)
+      q0 = qz * ep;
+      U0 = GM / b * Afun2(z2) + omega * omega * a * a / 3;               // H+M 2-61: GM/E atan(E/b) = GM/b A
+      Q w = m * q0p / qz;                                                 // m e' q0'/q0
       gammae = GM / (a * b) * (1 - m - w / 6);                            // H+M 2-73
       gammap = GM / (a * a) * (1 + w / 3);                                // H+M 2-74
-      J2 = e2 / 3 * (1 - Q(2) / 15 * m * ep / q0);                        // H+M 2-90
+      J2 = e2 / 3 * (1 - Q(2) / 15 * m / qz);                             // H+M 2-90: e'/q0 = 1/(q0/e')
     } else {
       ep = 0; q0 = 0; q0p = 0;
       U0 = GM / a + omega * omega * a * a / 3;
@@ -255,6 +274,7 @@ struct Ell {
   }
   // H+M 2-62 without the centrifugal term, with (u, beta) from H+M 6-8
   Q V0(Q X, Q Y, Q Z) const {
+    if (prolate) return Q(0) / Q(0);                                       // not implemented
     Q p2 = X * X + Y * Y, r2 = p2 + Z * Z;
     if (sphere) { Q r = sqrtq(r2), sb2 = Z * Z / r2; return GM / r + omega * omega * a * a / 2 * (a / r) * (a / r) * (a / r) * (sb2 - Q(1) / 3); }
     Q Qd = r2 - E * E, u2 = (Qd + sqrtq(Qd * Qd + 4 * E * E * Z * Z)) / 2, u = sqrtq(u2);
